@@ -1,4 +1,5 @@
 import DmrVerif.Lemmas.BptcMain
+import DmrVerif.Lemmas.BptcHist
 
 /-! # C02 (part c) — kernel-decided facts about the BPTC(196,96) position lists (see `C02a`) -/
 
@@ -18,5 +19,9 @@ theorem data_fill : chkDataFill = true := by decide +kernel
 
 /-- with repair the 96 info bits are read from the (repaired) table, from the same cells -/
 theorem rep_data : chkRepData = true := by decide +kernel
+
+/-- the loop of `fill_encoding_table` writes every one of the 195 cells of the table (so nothing a table
+held before survives it) -/
+theorem fill_cover : chkFillCover = true := by decide +kernel
 
 end Dmr.C02
